@@ -189,7 +189,17 @@ def generate(seed, tier, prop):
         faults.append({"run": 0, "calc": rng.randrange(0, 6), "stage": "hyd", "call": rng.choice([0, 1]),
                        "kind": "nan", "pos": rng.randrange(32)})
     run = {"kind": kind, "time_steps": steps, "cod": rng.random() < 0.6,
-           "kw": {"iter": rng.choice([30, 60]), "use_numba": rng.random() < 0.5}}
+           "kw": {"iter": rng.choice([30, 60]), "use_numba": rng.random() < 0.5},
+           # per-net continue_on_divergence handed in through ctrl_variables (control runs): a diverging member is
+           # then swallowed by its own evaluation and only the combined convergence flag can report it
+           "per_net_cod": kind in ("control", "control2") and rng.random() < 0.4}
+    if kind in ("control", "control2") and not fault_free and rng.random() < 0.35:
+        # infeasible member: a load the power net cannot serve / a demand the gas net cannot serve
+        if rng.random() < 0.5 and power["loads"]:
+            rng.choice(power["loads"])["p_mw"] = 4000.0
+        else:
+            snk = [o for o in gas["ops"] if o["fn"] == "create_sink"]
+            rng.choice(snk)["kw"]["mdot_kg_per_s"] = 60.0
     return {"engine": ENGINE, "prop": prop, "seed": seed, "tier": tier, "nets": nets, "couplings": couplings,
             "const": const, "profiles": profiles, "n_steps": T, "run": run, "faults": faults,
             "permute": rng.random() < 0.5, "perm_seed": rng.randrange(1 << 30),
@@ -426,7 +436,12 @@ def _execute(trace, res, solver):
         cc.install()
         raised = None
         try:
-            run_control_mn(mn, **kw)
+            if run.get("per_net_cod"):
+                cv = {"nets": {nn: {"continue_on_divergence": True} for nn in sorted(nets)}}
+                run_control_mn(mn, ctrl_variables=cv, **kw)
+                res.count("probe:per-net-continue-on-divergence")
+            else:
+                run_control_mn(mn, **kw)
         except Exception as e:
             raised = e
         finally:
